@@ -68,7 +68,7 @@ def run(ctx, out):
     out.rule = ("source trees with links to files, to directories, to links (chains up to 30), relative and absolute, inside and "
                 "outside the source, dangling (top level and deep), two-link cycles, self links and links to an ancestor; "
                 "-r -L with both drivers; also link OPERANDS (to file / directory, chains, absolute, dangling, cyclic; alone, among "
-                "several sources, onto a new name); a -L copy over the result of an earlier plain copy (links, dangling links, stale files "
+                "several sources, onto a new name, together with a second link to the same entry and the entry itself); a -L copy over the result of an earlier plain copy (links, dangling links, stale files "
                 "where directories must appear); three operands with a dangling / cyclic / self link inside the first, second or third; link targets (directories, files, chains; also as operand) on ANOTHER filesystem (/dev/shm); an errno at every readlink of a resolvable tree (exit 0 must still mean: no links); "
                 "destination compared with an independent resolver (os.stat/os.listdir following links) "
                 "and the Gallina walk on the resolved tree; non-trivial = tree contains a link; distinct = (link mix, driver, k)")
@@ -119,8 +119,10 @@ def run(ctx, out):
     for rep_i in range(1 if quick else 6):
         for kind in kinds2:
             for driver in ("parfile", "parblock"):
-                for form in ("into-dir", "multi", "new-name"):
+                for form in ("into-dir", "multi", "new-name", "alias"):
                     if quick and form == "new-name" and kind not in ("to-dir", "to-file"):
+                        continue
+                    if form == "alias" and kind in ("dangling", "cycle"):
                         continue
                     k += 1
                     d = os.path.join(d0, "o%d" % k)
@@ -153,6 +155,15 @@ def run(ctx, out):
                         srcs = ["ops/the_link"]
                         argv = [ctx.bins["xcp"], "-r", "-L", "--driver", driver, "-w", str(rng.choice([1, 2, 4]))] + srcs + [target]
                         outs = {target: real}
+                    elif form == "alias":
+                        # the link, a second link to the same entry, AND the entry itself are operands of one invocation: they are
+                        # the same file or directory once followed — three operands all the same, each with its own counterpart
+                        os.mkdir(dst)
+                        os.symlink(os.path.basename(real), os.path.join(d, "ops", "second_link"))
+                        srcs = ["ops/" + os.path.basename(real), "ops/the_link", "ops/second_link"]
+                        rng.shuffle(srcs)
+                        argv = [ctx.bins["xcp"], "-r", "-L", "--driver", driver, "-w", str(rng.choice([1, 2, 4]))] + srcs + [dst]
+                        outs = {os.path.join(dst, "the_link"): real, os.path.join(dst, "second_link"): real, os.path.join(dst, os.path.basename(real)): real}
                     else:
                         os.mkdir(dst)
                         srcs = ["ops/the_link"] if form == "into-dir" else ["ops/plain.txt", "ops/the_link"]
